@@ -2,6 +2,6 @@
    list, prod, sumbool, sumor map to OCaml's; nat, positive, N stay inductive. *)
 Require Extraction.
 Require Import ExtrOcamlBasic.
-From Atlas Require Import Base.Bytes Exec.ExecModel Exec.PendingModel Exec.RunModel Exec.StatusModel.
+From Atlas Require Import Base.Bytes Exec.ExecModel Exec.PendingModel Exec.RunModel Exec.StatusModel Exec.HistoryModel.
 Extraction Language OCaml.
-Extraction "model.ml" run_all execute_n pending execute read_revisions report apply_plan migrate_set.
+Extraction "model.ml" run_all execute_n pending execute read_revisions report apply_plan migrate_set history.
